@@ -321,9 +321,14 @@ class Check:
         d = os.path.join(ORACLE, engine)
         exe = os.path.join(d, "oracle.exe")
         srcs = [os.path.join(d, "Extract.v"), os.path.join(d, "driver.ml"), os.path.join(ORACLE, "common", "proto.ml")]
-        deps = []
-        for root, _, files in os.walk(os.path.join(COQ, "theories")):
-            deps += [os.path.join(root, f) for f in files if f.endswith(".v")]
+        # only the model files this extraction depends on (transitively)
+        ext0 = strip_coq_comments(open(os.path.join(d, "Extract.v")).read())
+        roots = []
+        for m in re.finditer(r"\b(?:GV\.)?([A-Z][A-Za-z0-9_]*(?:\.[A-Z][A-Za-z0-9_]*)+)\b", ext0):
+            cand = os.path.join(*m.group(1).split(".")) + ".v"
+            if os.path.exists(os.path.join(COQ, "theories", cand)):
+                roots.append(cand)
+        deps = coq_cone(sorted(set(roots)))
         newest = max(os.path.getmtime(p) for p in srcs + deps)
         if os.path.exists(exe) and os.path.getmtime(exe) >= newest:
             return exe
